@@ -218,14 +218,14 @@ def check_case(case):
         f.write(src)
     sys.path.insert(0, tmp)
   try:
-    return _check(case, nm, skip, labels)
+    return _check(case, nm, skip, labels, tmp)
   finally:
     if tmp:
       sys.path.remove(tmp)
       shutil.rmtree(tmp, ignore_errors=True)
 
 
-def _check(case, nm, skip, labels):
+def _check(case, nm, skip, labels, tmp):
   stmts = case['stmts']
   unknown = set(nm['unknown'])
   enabled = skip[0] != 'false' and (skip[0] == 'true' or bool(skip[1]))
@@ -327,10 +327,27 @@ def _check(case, nm, skip, labels):
   if prelude:
     gin.parse_config(PRELUDE)
     labels.add('prelude-registered-am.fn')
+  entry = case.get('entry') or 'string'
+  if case['mode'] == 'dynamic':
+    entry = 'string'
+  labels.add('entry:' + entry)
   try:
     with warnings.catch_warnings():
       warnings.simplefilter('ignore')
-      gin.parse_config(text, skip_unknown=skip_value(skip))
+      if entry == 'string':
+        gin.parse_config(text, skip_unknown=skip_value(skip))
+      else:
+        # the same text reached as a file, or through an include: skip_unknown means the same
+        path = os.path.join(tmp, 'c15text.gin')
+        with open(path, 'w') as f:
+          f.write(text)
+        if entry == 'file':
+          gin.parse_config_file(path, skip_unknown=skip_value(skip))
+        elif entry == 'multi':
+          gin.parse_config_files_and_bindings([path], None, finalize_config=False,
+                                              skip_unknown=skip_value(skip))
+        else:
+          gin.parse_config(f"include '{path}'\n", skip_unknown=skip_value(skip))
     raised = None
   except Exception as e:  # pylint: disable=broad-except
     raised = e
@@ -554,4 +571,5 @@ def strategy(draw):
     elif s[0] == 'block':
       s[3] = [[a, no_known_calls(v)] for a, v in s[3]]
   return {'mode': mode, 'skip': [kind, listed], 'stmts': stmts, 'tape': draw(S.tapes(10)),
+          'entry': draw(st.sampled_from(['string', 'string', 'file', 'include', 'multi'])),
           'prelude': draw(st.booleans())}
